@@ -1,4 +1,5 @@
 import IastModel.Lemmas.NsCount
+import IastModel.Lemmas.Targets
 import IastModel.Lemmas.Leaf
 namespace IastModel
 open Node
@@ -9,10 +10,11 @@ def isBlockNode : Node → Bool
 
 /-- Every reference to the hook namespace in the tree is the callee object of a hook call
     `_ddiast.<name>(…)` with `ok name`.  With `u = true` ("unprocessed blocks") every block statement
-    inside the tree must moreover be free of the namespace: this is the shape of a tree the operation
-    visitor has worked on but whose nested blocks the block visitor has not entered yet. -/
+    inside the tree must moreover be free of the namespace and have well-shaped compound-assignment
+    targets: this is the shape of a tree the operation visitor has worked on but whose nested blocks the
+    block visitor has not entered yet. -/
 def goodW (ok : String → Bool) (u : Bool) (n : Node) : Bool :=
-  if u && isBlockNode n then ns n == 0
+  if u && isBlockNode n then ns n == 0 && bad n == 0
   else match hookName? n with
     | some nm => ok nm && (n.kids.drop 1).attach.all fun k => goodW ok u k.1
     | none => !mentionsNs n && n.kids.attach.all fun k => goodW ok u k.1
@@ -24,7 +26,7 @@ decreasing_by
 def goodL (ok : String → Bool) (u : Bool) (l : List Node) : Bool := l.all (goodW ok u)
 
 theorem goodW_eq (ok : String → Bool) (u : Bool) (n : Node) :
-    goodW ok u n = if u && isBlockNode n then ns n == 0
+    goodW ok u n = if u && isBlockNode n then ns n == 0 && bad n == 0
       else match hookName? n with
         | some nm => ok nm && goodL ok u (n.kids.drop 1)
         | none => !mentionsNs n && goodL ok u n.kids := by
@@ -84,9 +86,10 @@ theorem good_user (ok u) (x : String) (sp : Span) : goodW ok u (.ident (.user x)
   rw [good_generic _ _ _ rfl rfl]; simp [mentionsNs, kids]
 @[simp] theorem good_arrow (ok u) (ps : List Node) (b : Node) (a : String) (sp : Span) : goodW ok u (.arrow ps b a sp) = (goodL ok u ps && goodW ok u b) := by
   rw [good_generic _ _ _ rfl rfl]; simp [mentionsNs, kids]
-theorem good_block (ok u) (ss : List Node) (sp : Span) : goodW ok u (.block ss sp) = if u then nsL ss == 0 else goodL ok u ss := by
+theorem good_block (ok u) (ss : List Node) (sp : Span) :
+    goodW ok u (.block ss sp) = if u then (nsL ss == 0 && badL ss == 0) else goodL ok u ss := by
   rw [goodW_eq]
-  cases u <;> simp [isBlockNode, hookName?, mentionsNs, kids]
+  cases u <;> simp [isBlockNode, hookName?, mentionsNs, kids, bad_eq, ns_eq, assignTargetOk]
 
 /-- a good identifier / literal does not mention the namespace -/
 theorem good_leaf_ns {ok u} {e : Node} (hg : goodW ok u e = true) (hl : leaf e = true) : ns e = 0 := by
@@ -148,22 +151,29 @@ theorem nsL_eq_zero : ∀ (l : List Node), nsL l = 0 → ∀ k ∈ l, ns k = 0 :
     · omega
     · exact ih (by omega) k hk
 
-/-- a tree that does not mention the namespace is good -/
-theorem good_of_ns0 (ok u) : ∀ n : Node, ns n = 0 → goodW ok u n = true := by
+/-- a tree that does not mention the namespace (and has well-shaped targets) is good -/
+theorem good_of_ns0 (ok u) : ∀ n : Node, ns n = 0 → bad n = 0 → goodW ok u n = true := by
   apply Node.ind
-  intro n ih h0
+  intro n ih h0 hb0
+  have h0' := h0
+  have hb0' := hb0
   rw [ns_eq] at h0
+  rw [bad_eq] at hb0
   have hm : mentionsNs n = false := by
     cases hh : mentionsNs n <;> simp_all
   have hk : ∀ k ∈ n.kids, ns k = 0 := by
     intro k hk
     have : nsL n.kids = 0 := by omega
     exact nsL_eq_zero _ this k hk
+  have hkb : ∀ k ∈ n.kids, bad k = 0 := by
+    intro k hk
+    have : badL n.kids = 0 := by omega
+    exact badL_eq_zero _ this k hk
   rw [goodW_eq]
   split
-  · rw [ns_eq]; simp [hm]; omega
+  · simp [h0', hb0']
   · have hh : hookName? n = none := by
-      clear ih h0
+      clear ih h0 hb0
       cases n with
       | call c as sp =>
         cases c with
@@ -187,13 +197,14 @@ theorem good_of_ns0 (ok u) : ∀ n : Node, ns n = 0 → goodW ok u n = true := b
     unfold goodL
     rw [List.all_eq_true]
     intro k hkm
-    exact ih k hkm (hk k hkm)
+    exact ih k hkm (hk k hkm) (hkb k hkm)
 
-theorem goodL_of_ns0 (ok u) (l : List Node) (h : nsL l = 0) : goodL ok u l = true := by
+theorem goodL_of_ns0 (ok u) (l : List Node) (h : nsL l = 0) (hb : badL l = 0) : goodL ok u l = true := by
   induction l with
   | nil => rfl
   | cons x xs ih =>
     simp only [nsL_cons] at h
-    simp [good_of_ns0 ok u x (by omega), ih (by omega)]
+    simp only [badL_cons] at hb
+    simp [good_of_ns0 ok u x (by omega) (by omega), ih (by omega) (by omega)]
 
 end IastModel
